@@ -373,6 +373,8 @@ Definition full_opts : opts := Opts s_name [] s_path [] true 0 0 false.
 
 Definition bind {A B} (r : res A) (f : A -> res B) : res B :=
   match r with Ret a => f a | Raise e => Raise e end.
+Definition res_map {A B} (f : A -> B) (r : res A) : res B :=
+  match r with Ret a => Ret (f a) | Raise e => Raise e end.
 
 Definition rt_dict (t : tree) (sep : str) : res tree :=
   bind (tree_to_dict t sep [] full_opts) (fun d => dict_to_tree d sep).
